@@ -667,3 +667,21 @@ def clean_decision_table(ctx: Ctx, rule: str, all_owners: bool = False) -> None:
         tail[0].value, rename={wname: "worker"}) == ("atom", "self.is_finished(worker, -1)")
     ctx.record(rule + "f", "TABLE", fref, "after all involved workers passed: return self.is_finished(worker, -1) (all involved workers finished)",
                ok_tail, {}, "" if ok_tail else "the final 'all involved workers finished' condition of default_clean_decision changed")
+
+
+def scan_trust(ctx: Ctx, rule: str) -> None:
+    """A worker may skip its own state scan of a setup node only on evidence that covers it: its own finished marker, or results of an
+    execution in its scope (whose producers pull_locations then names).  'Some worker is finished' is not such evidence when that worker got
+    there by a scan hit in its OWN pool: nobody produced the state in this run, so the other workers are pointed at the shared pool only."""
+    fref = f"{NODE}:TestNode.default_run_decision"
+    fn = ctx.repo.func(fref)
+    ctx.touch(fref)
+    defs = [s_ for s_ in ast.walk(fn.node) if isinstance(s_, (ast.Assign, ast.AugAssign)) and ast.unparse(s_.targets[0] if isinstance(s_, ast.Assign) else s_.target) == "should_scan"]
+    text = " ; ".join(ast.unparse(d.value) for d in defs)
+    conds = [ast.unparse(i.test) for i in ast.walk(fn.node) if isinstance(i, ast.If) and any(isinstance(x, ast.Assign) and ast.unparse(x.targets[0]) == "should_scan" for x in ast.walk(i))]
+    evidence = text + " ; " + " ; ".join(conds)
+    ok = bool(defs) and ("shared_finished_workers" in evidence or "finished_worker" in evidence) and "results" in evidence
+    ctx.record(rule, "GUARD", fref, "the state scan is skipped only if this worker finished the node itself or an execution in its scope has results (not merely because some worker's scan found the states)",
+               ok, {"should_scan": text},
+               "" if ok else f"should_scan = {text}: with the default scope is_finished(worker, 1) holds as soon as ANY worker finished a bridged copy, also by a scan hit in its own pool; "
+               "the other workers then skip the producer without scanning and their dependants are given the shared pool only, where the state is not")
